@@ -254,6 +254,7 @@ def env_generator_attrs(ctx: Ctx):
             ctx.ob("C18.d", f"{cname}:generator-attributes", True, path, f"all self.generator.<attr> reads are defined by {g.name}")
     atsp_triangle(ctx)
     integer_demands(ctx)
+    mtvrp_integer_demands(ctx)
     cvrptw_windows(ctx)
     fjsp_eligibility(ctx)
     shape_counts(ctx)
@@ -806,6 +807,51 @@ def integer_demands(ctx: Ctx):
                     why = f"demand = (int(demand_sampler.sample()) + {float(consts[0]):g}) / capacity; the sampler is built on [min_demand - {shift}, max_demand - {shift}): integers min..max after the shift: {f_ok}"
     ctx.ob("C18.g", "CVRPGenerator:integer-demand-range", b_ok and f_ok, gen.loc, why, construct="CVRPGenerator:demand-range")
     ctx.assume("C18.g: torch's .int() truncates towards zero and the demand sampler draws from the half-open interval [low, high)")
+
+
+def mtvrp_integer_demands(ctx: Ctx):
+    """C18.g MTVRP linehaul / backhaul demands use the same construction as CVRP, spelled inline: a real draw from
+    [min_X - k, max_X - k) truncated by .int() and shifted by + k.  The three k must agree (otherwise the documented integer
+    range min_X .. max_X is shifted or 0 becomes possible) and lower / upper bound must belong to the same quantity."""
+    g = ctx.repo.get_class("rl4co/envs/routing/mtvrp/generator.py", "MTVRPGenerator")
+    fi = g.methods.get("generate_demands")
+    if fi is None:
+        raise AnalysisError("MTVRPGenerator.generate_demands not found")
+    ctx.fn(fi)
+    par = _parents(fi.node)
+    draws = [c for c in ast.walk(fi.node) if isinstance(c, ast.Call) and isinstance(c.func, ast.Attribute) and c.func.attr == "uniform_" and len(c.args) == 2]
+    if len(draws) < 2:
+        raise AnalysisError(f"MTVRPGenerator.generate_demands: expected two uniform_ draws, found {len(draws)}")
+
+    def bound(e):
+        """self.<attr> - k  ->  (attr, k)"""
+        if isinstance(e, ast.BinOp) and isinstance(e.op, (ast.Sub, ast.Add)) and isinstance(e.right, ast.Constant) and isinstance(e.left, ast.Attribute) \
+                and isinstance(e.left.value, ast.Name) and e.left.value.id == "self":
+            return e.left.attr, (e.right.value if isinstance(e.op, ast.Sub) else -e.right.value)
+        if isinstance(e, ast.Attribute) and isinstance(e.value, ast.Name) and e.value.id == "self":
+            return e.attr, 0
+        return None
+    for c in draws:
+        lo, hi = bound(c.args[0]), bound(c.args[1])
+        # climb: .int() then + k
+        x = c
+        trunc = False
+        shift = None
+        while x in par:
+            p_ = par[x]
+            if isinstance(p_, ast.Attribute) and p_.attr in ("int", "long", "floor"):
+                trunc = True
+            if isinstance(p_, ast.BinOp) and isinstance(p_.op, (ast.Add, ast.Sub)) and isinstance(p_.right, ast.Constant) and p_.left is x and trunc and shift is None:
+                shift = p_.right.value if isinstance(p_.op, ast.Add) else -p_.right.value
+            if isinstance(p_, ast.stmt):
+                break
+            x = p_
+        fam = lo is not None and hi is not None and lo[0].startswith("min_") and hi[0].startswith("max_") and lo[0][4:] == hi[0][4:]
+        ok = bool(fam) and trunc and shift is not None and lo[1] == hi[1] == shift
+        name = lo[0][4:] if lo else "?"
+        ctx.ob("C18.g", f"MTVRPGenerator:integer-{name}-range", ok, f"{g.module.relpath}:{c.lineno}",
+               f"draw from [{ast.unparse(c.args[0])}, {ast.unparse(c.args[1])}), truncated: {trunc}, shifted by {shift}: bounds of one quantity {bool(fam)}, the three offsets agree {ok}",
+               construct=f"MTVRPGenerator.generate_demands:{name}-range")
 
 
 def atsp_triangle(ctx: Ctx):
